@@ -39,6 +39,8 @@ class Contract:
         self.opaque_raise = kw.pop("opaque_raise", False)
         self.bind = kw.pop("bind", {})
         self.prop = kw.pop("prop", False)
+        self.ghost_update = kw.pop("ghost_update", {})       # ghost assignments executed at every normal return
+        self.ghost_update_exc = kw.pop("ghost_update_exc", {})  # ... at every exceptional exit
         if kw:
             raise TypeError("unknown contract keys %s for %s" % (sorted(kw), fid))
 
@@ -57,13 +59,13 @@ def contract(fid, **kw):
     return c
 
 
-def spec(name, params, ret, body, rec=False, note=""):
+def spec(name, params, ret, body, rec=False, note="", macro=False, heap=()):
     """params: 'a:int, s:str'; body: python expression (may call itself when rec)"""
     ps = []
     for p in params.split(","):
         n, t = p.split(":")
         ps.append((n.strip(), t.strip()))
-    SPECS[name] = dict(name=name, params=ps, ret=ret, body=body, rec=rec, note=note)
+    SPECS[name] = dict(name=name, params=ps, ret=ret, body=body, rec=rec, note=note, macro=macro, heap=tuple(heap))
 
 
 def klass(name, bases=(), fields=None, exception=False, module=None):
